@@ -353,6 +353,15 @@ func TestC14(t *testing.T) {
 			_ = ev
 		}
 		_ = perHeight
+		if res.Final != nil && len(res.Unspec) == 0 {
+			msg, executed := lateFundsVariant(rt, sc, res.Final)
+			if executed {
+				st.Add("late_funds_variants_with_executed_conversion", 1)
+			}
+			if msg != "" {
+				return msg
+			}
+		}
 		st.Add("holder_payout_events", int64(res.EventKinds["holder-payout"]))
 		st.Add("snapshots_over_cap", int64(res.Flags["holder-cap"]))
 		st.Add("dust_resolved_among_tied_top_stakers", int64(res.Flags["holder-tie-dust"]))
@@ -571,4 +580,91 @@ func runIsoBatches(t *testing.T, st *Stats) {
 			fail(st, rt, msg, map[string]interface{}{"iso": ib})
 		}
 	})
+}
+
+// ---- C14, metamorphic part (model-free): funds that arrive after the previous
+// snapshot earn nothing. A variant chain in which an otherwise idle address
+// converts some of its own PEG (never staked) into a staked asset strictly after
+// snapshot k-1 must produce exactly the base chain's payouts at snapshot k.
+func stakingRows(d Dump, h uint32) []string {
+	txid := fmt.Sprintf("x%064d", h)
+	var out []string
+	for _, r := range d["pn_history_transaction"] {
+		if strings.Contains(r, "entry_hash="+txid+" ") {
+			// drop tx_index: the variant may legitimately reorder equal stakes? no — stakes are identical, keep everything
+			out = append(out, r)
+		}
+	}
+	return out
+}
+
+func lateFundsVariant(rt *rapid.T, sc *Scenario, base Dump) (string, bool) {
+	// snapshot heights inside the chain
+	var snaps []uint32
+	for h := (sc.Chain.Start/144 + 1) * 144; h <= sc.Chain.Tip; h += 144 {
+		snaps = append(snaps, h)
+	}
+	if len(snaps) < 2 {
+		return "", false
+	}
+	k := rapid.IntRange(1, len(snaps)-1).Draw(rt, "lateSnap")
+	s1, s2 := snaps[k-1], snaps[k]
+	if len(stakingRows(base, s2)) == 0 {
+		return "", false
+	}
+	// an address that sends nothing between the two snapshots and holds PEG
+	busy := map[string]bool{}
+	for _, b := range sc.Chain.Blocks {
+		if b.Height > s1-1 && b.Height <= s2 {
+			for _, e := range b.TX {
+				if txs, err := StrictParseBatch(e.Content); err == nil {
+					busy[hexAddr(txs[0].From)] = true
+				}
+			}
+		}
+	}
+	var x Actor
+	found := false
+	for i := 0; i < 40 && !found; i++ {
+		a := NewActor(i, i%5 == 4)
+		if busy[a.AddrHex()] || a.Eth {
+			continue
+		}
+		for _, r := range base["pn_addresses"] {
+			if strings.HasPrefix(r, "x"+a.AddrHex()) && strings.Contains(r, "peg_balance=") {
+				x, found = a, true
+			}
+		}
+	}
+	if !found {
+		return "", false
+	}
+	variant := &Scenario{Era: sc.Era, Chain: sc.Chain.Clone()}
+	h := s1 + 1 + uint32(rapid.IntRange(0, 20).Draw(rt, "lateOff"))
+	if h >= s2 {
+		h = s1 + 1
+	}
+	amt := uint64(rapid.IntRange(1, 50).Draw(rt, "lateAmt")) * 1e8
+	dst := []string{"pUSD", "pEUR", "pXBT"}[rapid.IntRange(0, 2).Draw(rt, "lateDst")]
+	b := variant.Chain.Get(h)
+	b.TX = append(b.TX, FATEntry(h, 10, 0, x, []Tx{{From: x.FA(), Asset: "PEG", Amt: amt, Conv: dst}}))
+	dir, done := caseDir()
+	defer done()
+	res, d, err := RunPlain(variant, dir+"/variant", NodeOpts{})
+	if err != nil || !res.OK(variant.Chain.Tip) {
+		return fmt.Sprintf("harness: variant chain failed: %v %v", err, res), false
+	}
+	// did the conversion execute before s2? (otherwise the variant is trivial)
+	executed := false
+	for _, r := range d["pn_history_transaction"] {
+		if strings.Contains(r, "from_address=x"+x.AddrHex()) && strings.Contains(r, `to_asset="`+dst+`"`) && !strings.Contains(r, "to_amount=0 ") {
+			executed = true
+		}
+	}
+	want, got := stakingRows(base, s2), stakingRows(d, s2)
+	if strings.Join(want, "\n") != strings.Join(got, "\n") {
+		return fmt.Sprintf("funds that arrived after snapshot %d changed the payouts of snapshot %d: %s… converted %d PEG into %s at height %d\nbase:    %s\nvariant: %s",
+			s1, s2, x.AddrHex()[:12], amt, dst, h, lineDiff(strings.Join(want, "\n")+"\n", strings.Join(got, "\n")+"\n"), ""), executed
+	}
+	return "", executed
 }
